@@ -201,8 +201,7 @@ def main():
         "checks": checks,
         "notes": "All checks: exit 0 ok, exit 1 + VIOLATION line, exit 2 harness error. VERIF_SEED selects the Hypothesis seeds; VERIF_REPO (default /repo) selects the tree under test. known_findings.json lists recorded findings and fixed defects.",
     }
-    if na:
-        man["not_applicable"] = na
+    man["not_applicable"] = na  # empty: every listed property is claimed
     with open(os.path.join(ROOT, "MANIFEST.json"), "w") as f:
         json.dump(man, f, indent=1)
     print("built:", built)
